@@ -60,6 +60,10 @@ def run(ctx):
         for k, h in enumerate(maximal):
             # every third history: the request is a POST whose body reader the application has already read to its end
             stim.append({"t": len(stim) + 1, "maxr": maxr, "at": 2, "steps": h, "post": k % 3 == 2})
+            if k % 5 == 0:
+                # the same history on a connection that was created with other transmission parameters; those of the history are
+                # set at run time through cc.Transmission()
+                stim.append({"t": len(stim) + 1, "mode": "memset", "maxr": maxr, "at": 2, "steps": h})
         # the first transmission refused by the network (transient write error), then sweeps over the whole retransmission span
         for ticks in ([3, 5, 7, 9, 13, 17, 33, 65], [3], [65], []):
             stim.append({"t": len(stim) + 1, "maxr": maxr, "at": 2, "steps": [{"a": "wfail", "t": 0}] + [{"a": "tick", "t": t} for t in ticks]})
@@ -112,7 +116,7 @@ def run(ctx):
         kinds = sorted(set(a[0] for a in acts))
         vf.report(ctx, clause, {"event_kinds": kinds, "maxr": t0["maxr"]},
                   "%d recorded history(ies) violate the clause; shortest (MAX_RETRANSMIT=%d, ACK_TIMEOUT=%d): %s -> copies at ticks %s, call returned %s" % (
-                      len(ts), t0["maxr"], json.dumps(acts), [c["at"] for c in t0["copies"]], t0["final"]["ret"]),
+                      len(ts), t0["maxr"], t0["at"], json.dumps(acts), [c["at"] for c in t0["copies"]], t0["final"]["ret"]),
                   {"trace": t0, "cmd": "bin/check C06 --tier %s" % ctx.tier})
 
     def mutate(t, rng):
